@@ -57,7 +57,9 @@ def short(case):
     return {"model": case["model"], "degree": case.get("degree"), "n": len(case["x"]),
             "sx": case["sx"], "sy": case["sy"], "xrange": case["xrange"], "form": case["form"],
             "noise_free": case["noise_free"], "units(x,y)": case.get("scale", [1.0, 1.0]),
-            "x[:3]": case["x"][:3], "y[:3]": case["y"][:3]}
+            "x[:3]": case["x"][:3], "y[:3]": case["y"][:3],
+            **({"callable": case["callable"]} if case.get("callable") else {}),
+            **({"hist": case["hist"]} if case.get("hist") else {})}
 
 
 def tag(case):
@@ -104,6 +106,16 @@ def scenario_counts(c, dist):
         dist["repeated-measurements:" + R["how"]] += 1
     if c.get("signs"):
         dist["parameter-branch:{}:{}".format(c["model"], c["signs"])] += 1
+    if c.get("parnames"):
+        dist["parnames-keyword:" + ("not-in-alphabetical-order" if sorted(c["parnames"]) != list(
+            c["parnames"]) else "alphabetical")] += 1
+    if c["model"].startswith("custom:"):
+        dist["user-callable:" + G.callable_tag(c)] += 1
+        if c["model"] in G.POLY_LIKE:
+            dist["user-model-is-a-polynomial-in-another-parameter-order"] += 1
+            nm = (c.get("callable") or {}).get("name")
+            if nm in G.PRESET_POLY:
+                dist["user-polynomial-named-like-a-preset-polynomial"] += 1
 
 
 def fail(sig, what, case, **kw):
@@ -414,8 +426,11 @@ def nontrivial_c07(o):
     return m >= 2 and any(o["cov"][i][j] != 0 for i in range(m) for j in range(m) if i != j)
 
 
-def judge_c07(case, o, r):
-    """-> (failures, n_skipped_comparisons)"""
+def judge_c07(case, o, r, session=None):
+    """-> (failures, n_skipped_comparisons); session: answer of the Lean session model
+    (`fit.session`) for the history of the case -- which parameter pairs still carry the record
+    the fit wrote (theorem C07_session_invisible: all of them, for every history without
+    reset_correlations)"""
     fails, skipped = [], 0
     t = tag(case)
     if "fail" in r:
@@ -489,7 +504,13 @@ def judge_c07(case, o, r):
         for key, what in (("chi2", "chi-squared"), ("res", "the residuals"), ("perr", "the parameter "
                           "uncertainties"), ("popt", "the parameter values"), ("regcorr", "the registered "
                           "correlations"), ("str", "the printed result")):
-            if o[key + "@after"] != o[key]:
+            before, after = o[key], o[key + "@after"]
+            if key == "regcorr" and session is not None and "kept" in session:
+                # judged where the session model says the record is still the fit's
+                kept = session["kept"]
+                before = [[v for v, kp in zip(row, krow) if kp] for row, krow in zip(before, kept)]
+                after = [[v for v, kp in zip(row, krow) if kp] for row, krow in zip(after, kept)]
+            if after != before:
                 fails.append(fail("c07:moved-by-history:" + key + ":" + t, "{} changed over the history "
                                   "{}".format(what, case.get("hist")), case, impl=o[key + "@after"],
                                   expected=o[key], clause="one fit result"))
@@ -586,6 +607,13 @@ def run_c07(ctx, cases, ref=False):
         if c.get("hist"):
             for st in c["hist"]:
                 dist["history:" + st[0] + (":value-asked-as-" + st[2] if st[0] == "switch" else "")] += 1
+                if st[0] == "session":
+                    dist["history:session:" + st[1]] += 1
+                elif st[0] == "config":
+                    dist["history:config:defaults-restored-by:" + st[3]] += 1
+                    dist["history:config:result-read-meanwhile:" + st[2]] += 1
+                    for ch in st[1]:
+                        dist["history:config:{}-by-{}".format(ch[0], ch[2])] += 1
             for lg in o.get("hist_log", []):
                 if lg[0] == "plot":
                     dist["history:plot:" + lg[1]] += 1
@@ -608,6 +636,9 @@ def run_c07(ctx, cases, ref=False):
             continue
         lines.append(result_request(c, o))
         idx.append((c, o))
+    # the histories in the vocabulary of the session model (one request line per case with a history)
+    sess_idx = [k for k, (c, _) in enumerate(idx) if c.get("hist")]
+    sess_lines = [G.session_requests(idx[k][0]) for k in sess_idx]
     for (c, o), k in zip(raised, conditioning(ctx, [c for c, _ in raised], ref=ref)):
         if k > KAPPA_MAX:
             skipped += 1
@@ -616,9 +647,21 @@ def run_c07(ctx, cases, ref=False):
         failures.append(fail("c07:exception:{}:{}".format(tag(c), o["exception"].split(":")[0]),
                              "fitting or reading the result (condition estimate {:.1e}) raised "
                              "{}".format(k, o["exception"]), c))
-    mod = ctx.model(lines, ref=ref) if lines else []
-    for (c, o), r in zip(idx, mod):
-        fs, sk = judge_c07(c, o, r)
+    mod = ctx.model(lines + sess_lines, ref=ref) if lines else []
+    sess = dict(zip(sess_idx, mod[len(lines):]))
+    mod = mod[:len(lines)]
+    for k_, ((c, o), r) in enumerate(zip(idx, mod)):
+        sm = sess.get(k_)
+        if sm is not None:
+            if "fail" in sm:
+                failures.append(fail("c07:model-error:session", "session model: " + sm["fail"], c,
+                                     kind="disagreement"))
+                sm = None
+            else:
+                dist["session-model:histories-run"] += 1
+                if all(all(row) for row in sm["kept"]):
+                    dist["session-model:all-parameter-records-kept"] += 1
+        fs, sk = judge_c07(c, o, r, session=sm)
         skipped += sk
         failures += fs
         if nontrivial_c07(o):
